@@ -17,6 +17,9 @@ var checks = map[string]func(*Checker){
 	"C04": checkC04,
 	"C05": checkC05,
 	"C15": checkC15,
+	"C18": checkC18,
+	"C19": checkC19,
+	"C20": checkC20,
 	"C10": checkC10,
 	"C11": checkC11,
 	"C12": checkC12,
